@@ -17,4 +17,18 @@ open(os.path.join(ROOT, 'seeded', 'README.md'), 'w').write(
     '# Seeded property-breaking changes\n\nEach directory holds `patch.diff` (never committed to /repo), `demo.py` (fails with the change, passes without) '
     'and `meta.json`. Produced by independent sub-agents that saw only the property text and a scratch worktree. '
     'Evaluation: `tools/eval_seed.sh` (confirm in the scratch worktree, then `git -C /repo apply`, run every quick check, `git -C /repo checkout -- .`).\n\n' + text + '\n')
-print(text)
+# compact matrix for DESIGN.md section 11
+comp = ['| seed | where (from the author\'s summary) | reported by (quick tier) | history |', '|---|---|---|---|']
+for r in rows:
+    where = r[2].split(':')[0].split(' (')[0][:90]
+    comp.append('| %s | %s | %s | %s |' % (r[0], where.replace('|', '/'), r[5], (r[6] or '').replace('|', '/')[:260]))
+open(os.path.join(ROOT, 'seeded', 'MATRIX.md'), 'w').write('\n'.join(comp) + '\n')
+dp = os.path.join(ROOT, 'DESIGN.md')
+d = open(dp).read()
+if '<!-- MATRIX:BEGIN -->' in d:
+    a = d.index('<!-- MATRIX:BEGIN -->') + len('<!-- MATRIX:BEGIN -->')
+    b = d.index('<!-- MATRIX:END -->')
+    open(dp, 'w').write(d[:a] + '\n' + '\n'.join(comp) + '\n' + d[b:])
+n_all = len(rows)
+n_rep = sum(1 for r in rows if r[5] != '-')
+print('%d seeds, %d reported by at least one quick check, %d not: %s' % (n_all, n_rep, n_all - n_rep, [r[0] for r in rows if r[5] == '-']))
